@@ -260,6 +260,7 @@ def write_domain(ms):
         if not isinstance(v, str) or any(b in v for b in BAD_TEXT) or v != v.strip():
             return "header_text_needs_escaping", None
     tl, beats = beats_of_mem(pts0)
+    capped = False
     for sm in ms.maps:
         keys = rsm.KEYS[sm.chart_type]
         for v in (sm.description, sm.difficulty):
@@ -283,7 +284,27 @@ def write_domain(ms):
                 if (g, col) in cells:
                     return "two_objects_in_one_cell", None
                 cells.add((g, col))
-    return None, (tl, beats, pts0)
+        # the file's own grid: a measure is written with the LCM of its positions'
+        # denominators, capped at 384 rows (1/96 beat); above the cap rows are
+        # truncated, so positions are only kept to the written grid and two
+        # objects closer than a row may share a cell
+        from math import lcm
+        per_measure = {}
+        for g, col in cells:
+            per_measure.setdefault(int(g // 4), []).append((g, col))
+        for m, lst in per_measure.items():
+            L = 1
+            for g, col in lst:
+                L = lcm(L, ((g % 4) / 4).denominator)
+            if L > 384:
+                capped = True
+                rowcells = set()
+                for g, col in lst:
+                    rc = (int(((g % 4) / 4) * 384), col)
+                    if rc in rowcells:
+                        return "two_objects_in_one_cell_of_the_384_row_cap", None
+                    rowcells.add(rc)
+    return None, (tl, beats, pts0, capped)
 
 
 def judge_write(ctx, args, kwargs, result, exc, pre):
@@ -295,9 +316,10 @@ def judge_write(ctx, args, kwargs, result, exc, pre):
         return ctx.ood("sm.write", "domain_gate_failed:" + type(e).__name__)
     if why:
         return ctx.ood("sm.write", why)
-    tl, beats, pts = info
-    on_measure = all(near_grid(b / 4, (1,)) for b in beats)
-    feat = dict(tempo_on_measure_lines=on_measure, n_tempo=len(pts), n_charts=len(ms.maps),
+    tl, beats, pts, capped = info
+    tempo_on_measure = all(near_grid(b / 4, (1,)) for b in beats)
+    on_measure = tempo_on_measure and not capped  # the "exact" class
+    feat = dict(tempo_on_measure_lines=tempo_on_measure, measure_over_384_rows=capped, n_tempo=len(pts), n_charts=len(ms.maps),
                 selectable=bool(ms.selectable),
                 chart_types=sorted({m.chart_type for m in ms.maps}))
     wit = dict(offset=ms.offset, tempo=pts, charts=[dict(type=m.chart_type, objects=mem_objects(m)[:60]) for m in ms.maps])
@@ -369,6 +391,19 @@ def judge_write(ctx, args, kwargs, result, exc, pre):
         return ctx.violate("C03", "sm.write", "header_round_trip",
                            f"selectable: memory {ms.selectable!r}, read back {r1.selectable!r}", wit, dict(feat, field="selectable"))
     ctx.held("sm.write", "header_round_trip")
+    # second generation: only where the read-back mapset is itself inside the
+    # writer's domain with an exactly representable grid (its tempo list is the
+    # reseated one, which can push objects of a squeezed partial measure off
+    # the grid or over the 384-row cap)
+    try:
+        why1, info1 = write_domain(r1)
+    except Exception:
+        why1, info1 = "domain_gate_failed", None
+    if why1 or info1[3]:
+        ctx.seen("sm.write", "second_generation_skipped." + (why1 or "over_384_rows"))
+        for m in ms.maps:
+            ctx.state("sm.write.chart", (m.chart_type, on_measure, len(pts) > 1))
+        return
     try:
         t2 = r1.write()
         r2 = SMMapSet.read(t2)
